@@ -217,6 +217,16 @@ fn bad_points<G: RG>(thorough: bool) -> Vec<(String, Vec<u8>)> {
     let mut f = vec![0u8; G::LEN];
     f[0] = 0xc0 | 0x20; // sort bit on infinity
     out.push(("flags/sort-bit-on-infinity".into(), f));
+    // the infinity flag with any of the low six bits of the first byte set, rest zero
+    let lows: Vec<u8> = if thorough { (1u8..=0x3f).collect() } else { vec![0x01, 0x08, 0x10, 0x1f, 0x3f] };
+    for b in lows {
+        let mut f = vec![0u8; G::LEN];
+        f[0] = 0xc0 | b;
+        out.push((format!("flags/infinity-with-low-bits-{b:02x}"), f));
+    }
+    let mut f = vec![0u8; G::LEN];
+    f[0] = 0x40; // infinity flag without the compression flag
+    out.push(("flags/infinity-uncompressed-flag".into(), f));
     let mut f = vec![0xffu8; G::LEN];
     f[0] = 0x9f; // x >= p
     out.push(("flags/x>=p".into(), f));
